@@ -156,7 +156,8 @@ class ZoneAnalysis:
         len_of_receiver(expr) → DBM variable naming the length of an indexable receiver (default: 'N' for param 1)"""
         self.b = body
         self.pre = precondition
-        self.int_locals = [l for l in range(len(body.locals)) if any(f.startswith("uint:") for f in body.local_flags(l))]
+        self.int_locals = [l for l in range(len(body.locals))
+                           if any(f.startswith("uint:") for f in body.local_flags(l)) and "ref" not in body.local_flags(l)]
         self.vars = ["Z", "N"] + ["_%d" % l for l in self.int_locals]
         self.pending = {}     # tuple local -> (op, var-or-const operands)
         self.bools = {}       # bool local -> (op, a, b) comparison (per definition site, single-assignment temps)
